@@ -1,3 +1,4 @@
+#include <algorithm>
 #include <cstring>
 
 #include <asam_cmp/decoder.h>
@@ -100,8 +101,11 @@ Decoder::SegmentedPacket::SegmentedPacket(
     , curMessageType(messageType)
     , curSegment(sequenceCounter)
 {
-    payload.resize(size);
-    memcpy(payload.data(), data, size);
+    // Keep the segment itself only: bytes that follow its declared length in the frame are not part of the message
+    const auto segmentSize =
+        std::min(size, sizeof(MessageHeader) + reinterpret_cast<const MessageHeader*>(data)->getPayloadLength());
+    payload.resize(segmentSize);
+    memcpy(payload.data(), data, segmentSize);
 }
 
 bool Decoder::SegmentedPacket::addSegment(
